@@ -50,6 +50,7 @@ func init() {
 				cs = append(cs, ev.MkCase("batch", c16Batch{What: "suites", From: f, To: f + 500, Seed: seed}))
 			}
 			cs = append(cs, ev.MkCase("batch", c16Batch{What: "malformed", Seed: seed}))
+			cs = append(cs, ev.MkCase("batch", c16Batch{What: "endless", Seed: seed}))
 			for f := 0; f < 256; f += 8 {
 				cs = append(cs, ev.MkCase("batch", c16Batch{What: "dcmi", From: f, To: f + 8, Seed: seed}))
 			}
@@ -203,6 +204,11 @@ func c16Exec(run *ev.Run, c ev.Case) {
 					}
 				}
 				c16RunSuites(run, data, "valid")
+			}
+		case "endless":
+			// a BMC that answers every list index with a full 16-byte chunk: the enumeration must still stop
+			for _, variant := range []int{0, 1, 2, 3} {
+				c16Endless(run, variant, b.Seed)
 			}
 		case "malformed":
 			for i := 0; i < 300; i++ {
@@ -415,5 +421,47 @@ func c16RunDCMI(run *ev.Run, d c16DCMI) {
 	}
 	if d.Counts[0] == 9 {
 		run.Sample("dcmi-"+d.Mode, map[string]any{"counts": d.Counts, "page_size": d.PageSize, "mode": d.Mode, "requests": len(srv.Requests), "inlet_ids": len(info.Inlet)})
+	}
+}
+
+// c16Endless serves a full chunk for every list index (variant selects the
+// content) and requires the enumeration to stop within 66 requests.
+func c16Endless(run *ev.Run, variant int, seed int64) {
+	run.Eval(1)
+	cs := ev.MkCase("batch", c16Batch{What: "endless", Seed: seed})
+	cfg := defaultCfg(rng(seed, "c16endless"))
+	e := NewEnv(cfg, memtr.Window)
+	requests := 0
+	chunk := []byte{0xc0, 0x01, 0x01, 0x41, 0x81, 0xc0, 0x02, 0x02, 0x42, 0x81, 0xc0, 0x03, 0x03, 0x44, 0x81, 0x82}
+	e.BMC.Handler = func(evn *refbmc.Event) (byte, []byte, bool) {
+		if evn.NetFn != 6 || evn.Cmd != 0x54 {
+			return 0xc1, nil, true
+		}
+		requests++
+		c := append([]byte(nil), chunk...)
+		switch variant {
+		case 1:
+			for i := range c {
+				c[i] = 0xc0 // only start-of-record tags
+			}
+		case 2:
+			c[15] = byte(requests)
+		case 3:
+			c = append(c, 0xff, 0xff) // over-long reply: only 16 bytes belong to the chunk
+		}
+		return 0, append([]byte{1}, c...), true
+	}
+	ctx, cancel := e.LimitCtx(400)
+	defer cancel()
+	var err error
+	pv, st := safe(func() { _, err = bmc.RetrieveSupportedCipherSuites(ctx, e.ST) })
+	run.Nontrivial(fmt.Sprintf("endless|%d", variant))
+	run.Event("cipher-suite-requests", requests)
+	if pv != nil {
+		run.Violation("C16:suites:panic:"+panicSite(st), fmt.Sprintf("endless full chunks (variant %d): %v\n%s", variant, pv, trimStack(st)), cs, nil)
+		return
+	}
+	if requests > 66 {
+		run.Violation("C16:suites:unbounded", fmt.Sprintf("a BMC answering every list index with a full chunk (variant %d) was asked %d times (call ended only because the harness cancelled it; err=%v)", variant, requests, err), cs, nil)
 	}
 }
